@@ -19,13 +19,29 @@ def claim(pid, text, note, technique, ref):
 XH = "symbolic execution of the real nutree code with CrossHair/z3 (bounded: shape and operation kind enumerated as bound parameters, all other inputs solver-quantified); counterexamples replayed natively"
 NOTE = "Trusted: CrossHair 0.0.110 path exhaustion and Python modelling, z3, stubs S-dict/S-hash/S-set/S-fmt under their stated contracts (DESIGN 3.4), CPython 3.11 for symbolic runs vs 3.12 for replays. Bounds and exclusions are in the evidence file."
 
-claim(
-    "C10",
-    "Bounded model checking: for every ordered forest up to the node bound (quick 4, thorough 5) the harness builds the tree through the public API with unbounded symbolic integer labels (equal-comparing siblings included) and compares every relationship query for every node, ordered node pair, level and flag with answers recomputed from the parent vector; CrossHair must exhaust all paths (CONFIRMED) for each shape.",
-    NOTE,
-    XH,
-    "5/C10",
-)
+Z3S = "z3 scheduling query (Int timestamps, program order, lock mutual exclusion) over lock/read traces extracted from the real code on every run; sat schedules replayed with real threads"
+STEP = " One inductive step from every constructible pre-state up to the node bound (all shapes, all label/clone patterns as unbounded symbolic ints, every operation and argument selector); CONFIRMED per shard = z3 showed no further path exists."
+
+claim("C01", "Bounded model checking of one mutation step on the real code: after every operation (whether it raised or not) an independent walk must find a well-formed tree (owner, single parent, once-by-identity in the child list, no cycles, count == reachable, unique node ids, removed nodes gone)." + STEP, NOTE, XH, "5/C01")
+claim("C02", "Same step driver as C01; after the step every lookup by data_id (present ids, ids present before, new ids), get_clones, is_clone, count_unique and the data_id rule are compared with a walk of the tree." + STEP, NOTE, XH, "5/C02")
+claim("C03", "Same step driver; the specification model says when an operation would create two siblings with one data_id: then the call must raise UniqueConstraintError, and after every step no parent may hold duplicate ids (routes: add variants, copy_to, add(tree), move_to, remove(keep_children), set_data); from_dict/load collisions are covered through the add route they use." + STEP, NOTE, XH, "5/C03")
+claim("C04", "Same step driver; the observable state after a documented-valid call must equal the independent executable specification (vlib/spec.py) applied to the same inputs, incl. identity of all untouched nodes, return value, source tree untouched; calls the documentation requires to be refused must raise." + STEP, NOTE, XH, "5/C04")
+claim("C05", "Symbolic save()->load() round trip through an S-json channel for five tree flavours (plain/str, explicit ids, callback mappers, typed, derived-class mappers), symbolic labels/ids/kinds selectors (all clone patterns), key_map/value_map in {default, off, custom}, meta flag; loaded class, shape, data, data_ids, kinds, clone groups, file_meta compared. Compression methods and path targets are run concretely in the native validation pass (zipfile/C codecs are not symbolically executable).", NOTE + " S-json: JSON round-trips the documents unchanged (validated natively with the real json module).", XH, "5/C05")
+claim("C06", "Per shape up to the node bound: every ordered iterator from a symbolic start node equals an independent reference traversal; visit() with a symbolic signal position, 11 signal kinds and an unbounded symbolic carried value is compared with the reference sequence truncated/pruned per signal, return value and memo checked; RANDOM_ORDER under every permutation of a symbolic shuffle.", NOTE, XH, "5/C06")
+claim("C07", "Per copy operation x source shape x flavour (ints, explicit ids, keyed objects, typed): the copy must mirror the source branch (same data objects, data_ids, kinds, order, all new nodes), the source observation must be unchanged, and after one symbolic follow-up mutation on either side the other side's observation must be unchanged. Copy-in operations within one tree are additionally decided by C04's oracle.", NOTE, XH, "5/C07")
+claim("C08", "Per shape: one symbolic verdict per node out of 8 (True/False/None/Skip/Skip(and_self=False)/Select/Stop/StopIteration), returned or raised, symbolic start; filter(), filtered(), copy(predicate=), Node.copy(add_self=False, predicate=) compared with the keep-set of an independent reading of the user guide; in-place vs copy agreement, source untouched, result well-formed. The listed known finding (duplicated accepted nodes in the copying forms, pinned by the test-suite) is tolerated only in exactly its known form.", NOTE, XH, "5/C08")
+claim("C09", "Per shape with symbolic name selectors (clones) and symbolic limit k: find_all/find_first/find on tree and every node for 8 patterns/predicates vs a reference pre-order filter with Python's re; lookups by data/data_id with limits on index and scan path; tree[key] for every key kind incl. resolution order, errors, del.", NOTE, XH, "5/C09")
+claim("C10", "Bounded model checking: for every ordered forest up to the node bound (quick 4, thorough 5) with unbounded symbolic integer labels (equal-comparing siblings included) every relationship query for every node, ordered pair, level and flag is compared with answers recomputed from the parent vector.", NOTE, XH, "5/C10")
+claim("C11", "Per pair of shapes all labels of both trees are unbounded symbolic ints (every overlap/clone/move pattern), ordered symbolic, reduce both ways; clauses a-h of the statement asserted separately (no marks on identical copy, both projections, marks exactly on one-sided children, moved-here has moved-away partner, order marks carry true indexes, reduce = marked nodes + ancestors, inputs unmodified).", NOTE + " S-set: list-backed set in nutree.diff.", XH, "5/C11")
+claim("C12", "Writer: the document handed to json.dump equals an independent encoder of the documented layout for the C05 trees/options, plus structural rules (parent/clone references point to earlier entries). Reader: encoder documents (with references and with clones spelled out), the user guide's three literal examples and six malformed headers load to the described tree / are rejected with RuntimeError.", NOTE, XH, "5/C12")
+claim("C13", "Part A (refusals): same step driver as C01-C04; whenever the call raised, the observation must equal the pre-state and the C01-C03 predicates must hold. Part B (callback faults at a symbolic invocation index) is not built yet and is outside the current claim.", NOTE, XH, "5/C13")
+claim("C14", "to_dict_list() equals an independent nested encoding and from_dict() of it - directly and after a JSON round trip - reproduces shape, order, data, custom ids and clone partition, for string trees, explicit ids and keyed objects with inverse mappers; both root representations.", NOTE, XH, "5/C14")
+claim("C15", "A parent (tree or nested node) with up to 4 (thorough 6) children whose kinds are symbolic one-character strings (all equality patterns): every kind-aware query for every child position, every present kind plus an absent one and any_kind on/off equals a list comprehension over the child list.", NOTE, XH, "5/C15")
+claim("C16", "Per shape: symbolic style selector over the 28 table styles, 'list', a custom 4-tuple and 6-tuple, symbolic join selector; every start node, add_self, title mode and repr kind rendered and compared with an independent renderer written from the user guide.", NOTE + " Symbolic z3 strings for the segments were tried and dropped (12 s per path).", XH, "5/C16")
+claim("C17", "Per shape plain and typed, symbolic label/kind selectors (clones), start, unique_nodes, add_root: DOT and Mermaid output parsed by independent parsers, RDF triples read from the rdflib graph; node definitions and edge lists compared with the parent vector.", NOTE + " rdflib (pure Python) is imported from /venv's site-packages.", XH, "5/C17")
+claim("C18", "For each of 9 snapshot operations x 3 tree classes x 3 tree states the lock/read trace is extracted from the current source with a monitor; z3 decides for all interleavings of W writers x C critical sections with R readers (quick 1x2x1, thorough 2x2x2) whether a reader READ can fall inside a foreign critical section (must be unsat); sat schedules are replayed with real threads; re-entrancy is run under a watchdog.", "Trusted: threading.RLock semantics as encoded, completeness of the monitored read set (_root, _node_by_id, _nodes_by_data_id), one trace per operation (no data-dependent locking).", Z3S, "5/C18")
+claim("C19", "load_tree_from_fs over an in-memory FakePath directory (bound parameter: nesting up to 5 entries) with symbolic one-character names (all orderings), symbolic sizes, every listing permutation and sort flag; loaded tree compared with the description and again after save->load through the FileSystemTree mappers. The native pass repeats it on a real temporary directory.", NOTE + " S-fs: pathlib behaviour as documented (iterdir, is_dir, is_file, stat, name, component-wise ordering).", XH, "5/C19")
+claim("C20", "build_random_tree with the module's random replaced by a tape of solver-chosen draws within the random module's contracts, for 6 structure definitions x {Tree, TypedTree}: class, allowed child types, counts (fixed / within range), merged attributes with macros expanded, randomized values in range, skipped attributes absent, kind == type.", NOTE + " Bounded tape: random() in {0.0, 0.5, 0.99}, uniform endpoints/midpoint, at most 10 draws.", XH, "5/C20")
 
 NOT_YET = "check not built yet in this session (planned per DESIGN.md section 5)"
 
@@ -46,7 +62,7 @@ def main():
                 "thorough_cmd": "./check %s --tier thorough" % pid,
                 "evidence_file": "evidence/%s.json" % pid,
                 "replay_cmd_template": "./check %s --replay {path}" % pid,
-                "engine": "xh",
+                "engine": "z3s" if pid == "C18" else "xh",
                 "level_claimed": {"category": "model_checking", "text": c["text"], "design_ref": c["ref"]},
                 "level_note": c["note"],
                 "technique": c["technique"],
@@ -66,9 +82,15 @@ def main():
             {
                 "name": "xh",
                 "path": "vlib/engine.py",
-                "serves_properties": [c["property_id"] for c in checks],
+                "serves_properties": [c["property_id"] for c in checks if c["property_id"] != "C18"],
                 "kind_free_text": "CrossHair 0.0.110 (symbolic execution of Python over z3) driving harness functions that call the real nutree code from $VERIF_REPO; one CrossHair condition per shard in a 16-process pool; native replay of every counterexample",
-            }
+            },
+            {
+                "name": "z3s",
+                "path": "props/c18.py",
+                "serves_properties": ["C18"],
+                "kind_free_text": "z3 (python z3-solver) scheduling queries over traces extracted from the real code by the M-lock monitor; replay with real threads",
+            },
         ],
         "checks": checks,
         "not_applicable": na,
